@@ -610,7 +610,7 @@ package genql
 //@   ensures star-group[C03]: len(args) == 0 && has(current, "*") && typeis(current["*"], []any) ==> err == nil && result == any(len(current["*"].([]any)))
 
 //@ func AggrFunExpr
-//@   at-call mapstore:query.singletonExecutions[key] assert memo-key[C03]: called(String) && key == callresult(String, 0)
+//@   at-call (*Query).memoise assert memo-key[C03]: called(String) && arg1 == callresult(String, 0)
 //@   at-call AggrFuncArgReader assert filtered-rows[C03]: len(query.groupDefinition) == 0 ==> typeis(current["*"], []any) ==> rows == current["*"].([]any)
 
 //@ func ExecSelect
@@ -929,7 +929,7 @@ package genql
 
 // C14: ONCE runs the function only when the query has nothing memoised under the call's name (a memoised NULL counts)
 //@ func FunExpr
-//@   at-call FuncArgReader assert a-once-call-is-evaluated-only-when-nothing-is-memoised[C14]: execType == "once" ==> !has(query.singletonExecutions, name)
+//@   at-call FuncArgReader assert a-once-call-is-evaluated-only-when-nothing-is-memoised[C14]: execType == "once" ==> called(memoised) && !callresult(memoised, 1, 1) && callarg(memoised, 1, 1) == name
 
 // C03: grouping sees every row that passed WHERE (the scan does not stop early), and every such row is put into a group
 //@ func (*Query).exec
@@ -973,7 +973,7 @@ package genql
 
 // C19/C14: ONCE memoises a call only when it succeeded
 //@ func FunExpr
-//@   at-call mapstore:query.singletonExecutions[name] assert only-a-call-that-succeeded-is-memoised[C19,C14]: err == nil
+//@   at-call (*Query).memoise assert only-a-call-that-succeeded-is-memoised-under-the-name-that-was-looked-up[C19,C14]: err == nil && arg0 == query && arg1 == name
 
 // C04: the key columns of a side are derived from this join's ON expression and this side's alias, for every catalogue
 //@ func ToCatalog
@@ -1065,3 +1065,32 @@ package genql
 //@   ensures no-having[C03]: query.havingDefinition == nil ==> result && err == nil
 //@   ensures having[C03]: query.havingDefinition != nil && err == nil ==> typeis(callresult(Expr, 0), bool) && result == callresult(Expr, 0).(bool)
 //@   at-call Expr assert having-evaluates-its-own-predicate-on-this-row[C03]: arg0 == query && arg1 == current && arg2 == query.havingDefinition.Expr
+
+// C01 (and the other properties that evaluate predicates): IN is true exactly after a member compared equal to the
+// left operand, NOT IN false exactly after one did; every member of the list is tried until then
+//@ func ComparisonExpr
+//@   loop 0 exhaustive in-tries-every-member[C01,C02,C03,C04]: rightArray
+//@   loop 1 exhaustive not-in-tries-every-member[C01,C02,C03,C04]: rightArray
+//@   at-call Compare:leftValue, value) assert a-member-is-compared-with-the-left-operand[C01,C02,C03,C04]: arg0 == callresult(ValueOf, 0, 1)
+//@   ensures in-false-only-when-the-list-is-exhausted[C01,C02,C03,C04]: err == nil && expr.Operator == sqlparser.InOp && !result ==> !iter(Compare)
+//@   ensures not-in-true-only-when-the-list-is-exhausted[C01,C02,C03,C04]: err == nil && expr.Operator == sqlparser.NotInOp && result ==> !iter(Compare)
+//@   ensures in-true-only-after-an-equal-member[C01,C02,C03,C04]: err == nil && expr.Operator == sqlparser.InOp && result ==> iter(Compare) && (callresult(Compare, 0, 7) == 0 || callresult(Compare, 0, 8) == 0)
+//@   ensures not-in-false-only-after-an-equal-member[C01,C02,C03,C04]: err == nil && expr.Operator == sqlparser.NotInOp && !result ==> iter(Compare) && (callresult(Compare, 0, 9) == 0 || callresult(Compare, 0, 10) == 0)
+
+// C07: the rows an EXISTS subquery runs over are the nested rows extended by the outer row: every entry comes from one
+// of the two, and the nested row's own columns are written last (they hide the outer row's columns of the same name)
+//@ func ExistExpr
+//@   at-call mapstore@loop1 assert an-outer-column-is-copied-as-it-is[C07]: has(scope, key) && stored == scope[key]
+//@   at-call mapstore@loop2 assert a-nested-column-is-copied-as-it-is-and-last[C07]: has(item, key) && stored == item[key]
+
+// C13/C10/C14: the memo of a query (ONCE and GLOBAL results, aggregates) is shared by the workers of a PARALLEL join,
+// which evaluate ON on one and the same query: it is read and written only with the query's memo mutex held
+//@ field Query.singletonExecutions guarded_by singletonMut [C13,C10,C14]
+//@ func (*Query).memoised
+//@   requires q: query != nil
+//@   ensures what-is-memoised[C14,C03,C13]: result1 == has(old(query.singletonExecutions), name) && (result1 ==> result0 == old(query.singletonExecutions)[name])
+//@   modifies locks
+//@ func (*Query).memoise
+//@   requires q: query != nil
+//@   ensures memoised-under-the-name[C14,C03,C13]: has(query.singletonExecutions, name) && query.singletonExecutions[name] == value
+//@   modifies locks M|Str|Any D|Str|Any
